@@ -13,11 +13,15 @@ structure DispSt where
   cfg : ChainCfg
   c : Chain
 
+/-- bech32 accepts an all-lower-case or an all-upper-case spelling -/
 def validAddrModel (a : Addr) : Bool :=
-  "sif1".toList.isPrefixOf a && a.all (fun ch => ch.isDigit || ch.isLower)
+  ("sif1".toList.isPrefixOf a && a.all (fun ch => ch.isDigit || ch.isLower)) ||
+  ("SIF1".toList.isPrefixOf a && a.all (fun ch => ch.isDigit || ch.isUpper))
+
+def canonAddr (a : Addr) : Addr := a.map Char.toLower
 
 def mkCfg (module : Addr) (blockedList : List Addr) : ChainCfg :=
-  { disp := { module := module, blocked := fun a => blockedList.contains a, validAddr := validAddrModel },
+  { disp := { module := module, blocked := fun a => blockedList.contains a, validAddr := validAddrModel, canon := canonAddr },
     mint := { cap := Sif.Generated.DispConsts.maxMintAmount, perBlock := Sif.Generated.DispConsts.mintAmountPerBlock,
               denom := "rowan".toList, ecoPool := Sif.Generated.DispConsts.ecoPool.toList, module := module },
     maxRecords := Sif.Generated.DispConsts.maxRecordsPerBlock }
@@ -55,7 +59,7 @@ def parseStore (s : String) : Option (Store Rec) :=
 def parseKeyCoins (s : String) : Option (List (Key × Coins)) :=
   (parseList s ";").mapM fun x =>
     match x.splitOn "|" with
-    | [name, t, rcpt, coins] => (parseCoins coins).map fun c => (recordKey name.toList (parseDType t) rcpt.toList, c)
+    | [name, t, rcpt, coins] => (parseCoins coins).map fun c => (recordKey name.toList (parseDType t) (rcpt.toList.map Char.toLower), c)
     | _ => none
 
 def parseAddrCoins (s : String) : Option (List (Addr × Coins)) :=
@@ -147,23 +151,25 @@ def handleDisp (st : DispSt) : List String → Option (DispSt × String)
       let failed ← parseStore (← stripPrefix "failed=" failed)
       let completed ← parseStore (← stripPrefix "completed=" completed)
       let s : DispState := { DispState.empty with pending := pending, failed := failed, completed := completed }
-      let ks := (created.map (·.1)) ++ (paid.map (·.1)) ++ (pending.map (·.1)) ++ (failed.map (·.1)) ++ (completed.map (·.1))
-      some (st, toString (ledgerObsOn ks.eraseDups ds (lookupKC created) (lookupKC paid) s))
-  | ["chk", "c11.run", _tag, denoms, runner, name, t, count, pre, post, deltas] => do
+      let ck := fun (st : Store Rec) => st.map fun p => canonKey canonAddr p.2
+      let ks := (created.map (·.1)) ++ (paid.map (·.1)) ++ ck pending ++ ck failed ++ ck completed
+      some (st, toString (ledgerObsOnC canonAddr ks.eraseDups ds (lookupKC created) (lookupKC paid) s))
+  | ["chk", "c11.run", _tag, denoms, runner, name, t, count, pre, post, postFailed, deltas] => do
       let ds := (parseList denoms ",").map String.toList
       let count ← parseInt count
       let m : MsgRun := { runner := runner.toList, name := name.toList, typ := parseDType t, count := count }
       let pre ← parseStore (← stripPrefix "pre=" pre)
       let post ← parseStore (← stripPrefix "post=" post)
+      let pf ← parseStore (← stripPrefix "postfailed=" postFailed)
       let deltas ← parseAddrCoins (← stripPrefix "deltas=" deltas)
-      some (st, toString (runObsOK m pre post deltas ds))
+      some (st, toString (runObsOK canonAddr m pre post pf deltas ds))
   | ["chk", "c11.leavers", _tag, denoms, pre, post, postFailed, deltas] => do
       let ds := (parseList denoms ",").map String.toList
       let pre ← parseStore (← stripPrefix "pre=" pre)
       let post ← parseStore (← stripPrefix "post=" post)
       let pf ← parseStore (← stripPrefix "postfailed=" postFailed)
       let deltas ← parseAddrCoins (← stripPrefix "deltas=" deltas)
-      some (st, toString (leaversOK pre post pf deltas ds))
+      some (st, toString (leaversOK canonAddr pre post pf deltas ds))
   | ["chk", "c20.txsupply", _tag, before, after] => do
       let b ← (parseList before ",").mapM parseNat
       let a ← (parseList after ",").mapM parseNat
